@@ -68,6 +68,12 @@ class Extractor:
                 return ("fn", c.get("res") or c["fn"])
             if "str" in c:
                 return ("str", c["str"])
+            if "named" in c:
+                k = self.prog.consts.get(c["named"])
+                v = k.get("val") if k else None
+                if isinstance(v, dict) and ("int" in v or "bool" in v):
+                    return self.const(v)
+                return ("named", c["named"])
         return ("opaque", repr(c)[:60])
 
     def read(self, body, env, pl):
@@ -84,6 +90,10 @@ class Extractor:
                     t = t[1 + idx]
                 elif t[0] == "agg" and idx < len(t[2]):
                     t = t[2][idx]
+                elif t[0] == "with":
+                    while t[0] == "with" and t[2] != name:
+                        t = t[1]
+                    t = t[3] if t[0] == "with" else ("field", t, name)
                 else:
                     t = ("field", t, name)
             elif isinstance(e, list) and e[0] == "dc":
@@ -91,6 +101,21 @@ class Extractor:
             else:
                 raise Unsupported("projection %r in %s" % (e, body.key))
         return t
+
+    def write(self, body, env, pl, val, bb):
+        """Assignment to `local.field` (one field level, derefs ignored): functional update of the local's term."""
+        l, proj = pl
+        fl = [e for e in proj if e != "*"]
+        if len(fl) != 1 or not (isinstance(fl[0], list) and fl[0][0] == "f") or l not in env:
+            raise Unsupported("write to projected place in %s bb%d" % (body.key, bb))
+        idx, name = fl[0][1], fl[0][3]
+        base = env[l]
+        if base[0] == "agg" and idx < len(base[2]):
+            env[l] = ("agg", base[1], base[2][:idx] + (val,) + base[2][idx + 1:])
+        elif base[0] == "pair" and idx in (0, 1):
+            env[l] = ("pair", val, base[2]) if idx == 0 else ("pair", base[1], val)
+        else:
+            env[l] = ("with", base, name, val)
 
     def operand(self, body, env, op):
         if op[0] in ("cp", "mv"):
@@ -163,7 +188,8 @@ class Extractor:
                 continue
             pl, rv = st[1], st[2]
             if pl[1]:
-                raise Unsupported("write to projected place in %s bb%d" % (body.key, bb))
+                self.write(body, env, pl, self.rvalue(body, env, rv), bb)
+                continue
             env[pl[0]] = self.rvalue(body, env, rv)
         t = blk["t"]
         k = t[0]
